@@ -913,6 +913,21 @@ pub fn locate(tag: &str, d: &[u8], rng: &mut Rng) -> Vec<Field> {
                                 f(&mut out, "cmap4.startCode", so + 16 + sx2 + 2 * k, 2, n);
                                 f(&mut out, "cmap4.idDelta", so + 16 + 2 * sx2 + 2 * k, 2, n);
                                 f(&mut out, "cmap4.idRangeOffset", so + 16 + 3 * sx2 + 2 * k, 2, n);
+                                // every segment spans the whole BMP: enumerating the mappings
+                                // costs 65536 per 8 bytes of table (endCode[], pad, startCode[]
+                                // are adjacent; idRangeOffset[] zeroed by a second variant)
+                                if seg >= 2 && seg <= 8192 {
+                                    let mut b = Vec::with_capacity(2 * sx2 + 2);
+                                    for _ in 0..seg {
+                                        b.extend_from_slice(&[0xFF, 0xFF]);
+                                    }
+                                    b.extend_from_slice(&[0, 0]);
+                                    b.resize(2 * sx2 + 2, 0);
+                                    fw(&mut out, "cmap4.segments.allWide", so + 14, b.clone(), n);
+                                    // same, with idDelta[] and idRangeOffset[] zeroed as well
+                                    b.resize(4 * sx2 + 2, 0);
+                                    fw(&mut out, "cmap4.segments.allWideDirect", so + 14, b, n);
+                                }
                             }
                         }
                         Some(6) => {
@@ -933,6 +948,21 @@ pub fn locate(tag: &str, d: &[u8], rng: &mut Rng) -> Vec<Field> {
                                 f(&mut out, "cmap12.startCharCode", so + 16 + 12 * k, 4, n);
                                 f(&mut out, "cmap12.endCharCode", so + 20 + 12 * k, 4, n);
                                 f(&mut out, "cmap12.startGlyphID", so + 24 + 12 * k, 4, n);
+                                // every group spans all of Unicode (groups are required to be
+                                // sorted and disjoint; nothing in the format enforces it)
+                                if g >= 2 {
+                                    let m = g.min(*rng.pick(&[8usize, 64, 1000]));
+                                    let mut b = Vec::with_capacity(12 * m);
+                                    for _ in 0..m {
+                                        // (glyph ids have to stay below 65536 or the
+                                        // enumeration stops with an error at once)
+                                        let wide = rng.pct(70);
+                                        b.extend_from_slice(&0u32.to_be_bytes());
+                                        b.extend_from_slice(&(if wide { 0xFFFEu32 } else { 0x10FFFF }).to_be_bytes());
+                                        b.extend_from_slice(&(if wide { 0u32 } else { 1 }).to_be_bytes());
+                                    }
+                                    fw(&mut out, "cmap12.groups.allWide", so + 16, b, n);
+                                }
                             }
                         }
                         Some(14) => {
